@@ -605,7 +605,7 @@ def _snap_body(body, st):
 		if py in ('list-sub', 'tuple-sub') and type(fd) not in (list, tuple):
 			snap['py'] = py
 		return snap
-	if isinstance(fd, GeneratorType) or type(fd) is type(iter([])):
+	if isinstance(fd, GeneratorType) or type(fd) is type(iter([])) or (py in ONESHOT_D64 and hasattr(fd, '__next__') and not hasattr(fd, 'read')):
 		# a generator cannot be looked into: it is the one the harness made from the items of the last body assignment, not yet run
 		if st['body']['t'] != 'gen':
 			raise ValueError('unexpected generator source')
@@ -1885,12 +1885,32 @@ import zlib as _zlib
 
 REITERABLE = ('dict', 'odict', 'dictkeys', 'dictvalues', 'deque', 'set1', 'frozenset1', 'reiter', 'list-sub', 'tuple-sub')
 ONESHOT = ('iterlist', 'genexpr', 'genfunc', 'zipgen')
-# Kept out (a finding of the clean tree against "whatever kind of object supplied the body", reported): one-shot iterators that are neither a generator nor a
-# list iterator - iter(tuple), map(...), itertools.chain(...), filter(...), reversed(list), iter(dict), zip(...) - are accepted by Body.set but Body does not
-# know them as generators: the first walk (len(body) in prepare(), or bool(body)) exhausts them and nothing is kept.  Response + body map(bytes, [b'ab', b'cd'])
-# -> 'Content-Length: 4' followed by no octets; with chunked framing a complete but EMPTY chunked body.  memoryview content (and bytearray / memoryview PIECES) is
-# accepted at assignment and refused only by prepare() / len() (TypeError); io.StringIO / io.BufferedReader / io.TextIOWrapper content (the class docstring
-# names StringIO) is accepted and prepare() raises io.UnsupportedOperation from fileno().  Refusals, no octets: observations, not generated either.
+# Finding D64 (repaired in 73ea79c, generated on every run): one-shot iterators that are neither a generator nor a list iterator - iter(tuple), map(...),
+# itertools.chain(...), filter(...), reversed(list), iter(dict), iter(deque), islice, starmap over zip(...), an iterator class with __iter__ / __next__ - were accepted
+# by Body.set, but Body did not know them as generators: the first walk (len(body) in prepare(), or bool(body)) exhausted them and nothing was kept.  Response +
+# body map(bytes, [b'ab', b'cd']) -> 'Content-Length: 4' followed by no octets; with chunked framing a complete but EMPTY chunked body.  They are sources of
+# kind 'gen' (model: SGen) like the four above, in the framing / repeatability / refused-call / aliasing scenarios.
+ONESHOT_D64 = ('itertuple', 'map', 'chain', 'filter', 'reversed', 'starmap-zip', 'islice', 'iterdict', 'iterdeque', 'iterclass')
+# Still kept out (observations, refusals without octets): memoryview content (and bytearray / memoryview PIECES) is accepted at assignment and refused only by
+# prepare() / len() (TypeError); io.StringIO / io.BufferedReader / io.TextIOWrapper content (the class docstring names StringIO) is accepted and prepare() raises
+# io.UnsupportedOperation from fileno().
+
+
+class _IterClass(object):
+	"""a user-defined one-shot iterator"""
+
+	def __init__(self, pieces):
+		self.pieces = list(pieces)
+		self.i = 0
+
+	def __iter__(self):
+		return self
+
+	def __next__(self):
+		if self.i >= len(self.pieces):
+			raise StopIteration
+		self.i += 1
+		return self.pieces[self.i - 1]
 
 
 class _ReIter(object):
@@ -1968,6 +1988,26 @@ def _content5(body, keep):
 		return _genfunc(objs)
 	if py == 'zipgen':
 		return (x for x, _ in zip(objs, range(len(objs))))
+	if py == 'itertuple':
+		return iter(tuple(objs))
+	if py == 'map':
+		return map(lambda x: x, objs)
+	if py == 'chain':
+		return _itertools.chain(objs[:1], objs[1:])
+	if py == 'filter':
+		return filter(lambda x: True, objs)
+	if py == 'reversed':
+		return reversed(objs[::-1])
+	if py == 'starmap-zip':
+		return _itertools.starmap(lambda x, i: x, zip(objs, range(len(objs))))
+	if py == 'islice':
+		return _itertools.islice(objs + [b'never sent'], len(objs))
+	if py == 'iterdict':
+		return iter(dict((x, i) for i, x in enumerate(objs)))   # (keys: distinct pieces)
+	if py == 'iterdeque':
+		return iter(_collections.deque(objs))
+	if py == 'iterclass':
+		return _IterClass(objs)
 	if py == 'bytesio-sub':
 		fd = _BytesIOSub(data)
 		fd.seek(pos)
@@ -1997,6 +2037,8 @@ def _fd_obs(body):
 	fd = body.fd
 	if o[0].startswith('other:') and hasattr(fd, '__iter__') and not hasattr(fd, 'read') and not hasattr(fd, '__next__'):
 		return ['list']
+	if o[0].startswith('other:') and hasattr(fd, '__next__') and not hasattr(fd, 'read'):
+		return ['gen']   # a one-shot iterator that is not a generator (map, chain, ...): for the composer what a generator is
 	return o
 
 
@@ -2148,7 +2190,7 @@ def _r_abandon(n):
 	def f(m, c):
 		from types import GeneratorType
 		fd = m.body.fd
-		if n > 1 and (isinstance(fd, GeneratorType) or type(fd) is type(iter([]))):
+		if n > 1 and (isinstance(fd, GeneratorType) or type(fd) is type(iter([])) or (hasattr(fd, '__next__') and not hasattr(fd, 'read'))):
 			raise _Marker('a generator that was run half way is gone: the caller\'s object, nothing the library could restore')
 		it = iter(c)
 		for _ in range(n):
@@ -2594,13 +2636,14 @@ def gen_classes5(rng, tier):
 	pieces = [b'zz', b'a', b'', b'mm\r\n', b'0']
 	variants = [('bytes', 'bytes-sub'), ('text', 'str-sub'), ('list', 'dict'), ('list', 'odict'), ('list', 'dictkeys'), ('list', 'dictvalues'), ('list', 'deque'), ('list', 'set1'), ('list', 'frozenset1'),
 		('list', 'reiter'), ('list', 'list-sub'), ('tuple', 'tuple-sub'), ('gen', 'iterlist'), ('gen', 'genexpr'), ('gen', 'genfunc'), ('gen', 'zipgen'), ('bytesio', 'bytesio-sub'), ('file', 'file-rw'), ('file', 'spooled')]
+	variants += [('gen', py) for py in ONESHOT_D64]   # D64
 	n = 0
 	for t, py in variants:
 		if t in ('bytes', 'text', 'bytesio', 'file'):
 			items, strs = [_hx('gr\xfc\xdfe \u20ac')], None
 		elif py in ('set1', 'frozenset1'):
 			items, strs = [b'only one piece'.hex()], None
-		elif py in ('dict', 'odict', 'dictkeys'):
+		elif py in ('dict', 'odict', 'dictkeys', 'iterdict'):
 			items, strs = [x.hex() for x in pieces if x] + [_hx('\xe9')], [False] * 4 + [True]   # keys: distinct, in insertion order
 		else:
 			items, strs = [x.hex() for x in pieces] + [pieces[0].hex(), _hx('\xe9')], [False] * 6 + [True]
@@ -2618,6 +2661,33 @@ def gen_classes5(rng, tier):
 		cases.append({'k': 'body', 'body': dict(body), 'chunked': n % 2 == 0, 'coding': [None, 'gzip', 'deflate'][n % 3], 'trailer': []})
 		if t in ('list', 'gen'):
 			cases.append({'k': 'seq', 'base': _base('resp', coding='deflate'), 'segs': [{'mut': [['body', dict(body), 'attr']], 'ops': four}]})
+	# D64: the one-shot iterators in the refused-call and aliasing scenarios (the source is assigned, then the call is refused before the first use / between two
+	# uses; a second message is built from the parts after the first use), and the shortest forms
+	d64_refusals = ['body = closed file', 'body.set(42)', 'body = unencodable text', 'serialisation abandoned after the header section', 'status = 99', 'method = "BAD METHOD"',
+		'headers["Bad Name"] = x', 'prepare() with Transfer-Encoding: x-unknown', 'body = Body(closed BytesIO)', 'body.encode(42)']
+	n = 0
+	for pi, py in enumerate(ONESHOT_D64):
+		items = [x.hex() for x in (b'ab', b'cd', b'', b'\r\n0')] + [_hx('\xe9')]
+		spec = {'t': 'gen', 'py': py, 'items': items, 'strs': [False] * 4 + [True]}
+		for ki, kind in enumerate(('resp', 'req')):
+			for ch in (False, True):
+				n += 1
+				first = ([['ch', True]] if ch else []) + two
+				name = d64_refusals[(n + pi) % len(d64_refusals)]
+				if REFUSALS[name][0] not in ('any', kind):
+					name = 'body = closed file'
+				assign = ['body', dict(spec), ('attr', 'set', 'bodyobj')[n % 3]]
+				if n % 2:
+					segs = [{'mut': [assign, ['refuse', name]], 'ops': first}, {'mut': [['refuse', d64_refusals[n % 3]]], 'ops': [['c']]}, {'mut': [], 'ops': two}]
+				else:
+					segs = [{'mut': [assign], 'ops': first}, {'mut': [['refuse', name]], 'ops': two + [['c']]}]
+				cases.append({'k': 'seq', 'base': _base(kind), 'segs': segs})
+				if ch == (pi % 2 == 0):
+					cases.append({'k': 'seq', 'base': _base(kind), 'segs': [{'mut': [assign], 'ops': first}, {'mut': [['alias', ALIAS_WAYS[(n + pi) % len(ALIAS_WAYS)] if (n + pi) % len(ALIAS_WAYS) != 5 else 'ctor', 'use']], 'ops': [['c']]}, {'mut': [], 'ops': two}]})
+		short = {'t': 'gen', 'py': py, 'items': [b'ab'.hex(), b'cd'.hex()] if py != 'iterdict' else [b'ab'.hex(), b'cd'.hex()]}
+		cases.append({'k': 'seq', 'base': _base('resp'), 'segs': [{'mut': [['body', short, 'attr']], 'ops': two}]})
+		cases.append({'k': 'seq', 'base': _base('req'), 'segs': [{'mut': [['body', dict(short), 'attr']], 'ops': [['ch', True]] + two}]})
+		cases.append({'k': 'seq', 'base': _base('resp', coding=('gzip', 'deflate')[pi % 2]), 'segs': [{'mut': [['body', dict(short), 'set']], 'ops': four}]})
 	# ... the fields the framing depends on through the remaining argument types
 	fields = [('Transfer-Encoding', 'chunked'), ('Content-Encoding', 'gzip'), ('Content-Type', 'text/plain; charset=ISO-8859-1'), ('Content-Length', '3'), ('Connection', 'close'), ('Trailer', 'X-T')]
 	text_list = {'t': 'list', 'items': [_hx('gr\xfc\xdfe'), b' \xff'.hex()], 'strs': [True, False]}
